@@ -5,7 +5,7 @@ import Percival.Model.Getopt
 `parse <table> <k> [<argv0> <arg>…]` — set `optreset = 1`, run the user loop over the given `argv`
 (hex words, `-` = empty word; no words at all = `argc == 0`), stop after `k` reports if `k > 0`.
 Output: `<reports> end=<optind>` (or `… stop` when abandoned) ` | ` state after every report and at the end.
-L1 (before the bar) is printed from `Spec.Getopt.getopt`; L2 (after it) from the model's states. -/
+L1 (before the bar) is printed from `Spec.Getopt.parseArgv`; L2 (after it) from the model's states. -/
 namespace Percival.Driver.Getopt
 open Percival.Model.Getopt Percival.Spec.Getopt Percival.Driver
 
@@ -67,7 +67,7 @@ def step (s : St) (toks : List String) : St × String :=
         match run lines argv s with
         | .error f => (s, showFail f)
         | .ok (evs, sf) =>
-          let spec := Percival.Spec.Getopt.getopt T argv
+          let spec := Percival.Spec.Getopt.parseArgv T argv
           if k > 0 ∧ k ≤ evs.length then
             -- abandoned after k reports
             let evs' := evs.take k
